@@ -322,6 +322,12 @@ impl<T: Qcow2IoOps> Qcow2Dev<T> {
                     .await?;
 
                 if compressed {
+                    // the new mapping has to be durable before the refcounts
+                    // of the old compressed clusters may drop: the slice
+                    // write above and a later refcount flush could otherwise
+                    // reach the disk in any order
+                    self.call_fsync(0, usize::MAX, 0).await?;
+
                     // free clusters in original compressed mapping
                     // finally, this update needn't be flushed immediately,
                     // and can be update in ram
